@@ -7,6 +7,7 @@ oracle         exception class of parse(), select(env) and probing(...).__enter_
                implementation for the same strings and for grammar mutations
 """
 import json
+import os
 
 import core
 import selcorr
@@ -33,10 +34,18 @@ def classify(fn):
     except RecursionError:
         return {"err": "RecursionError"}
     except BaseException as e:  # noqa
+        # a value expression of the selector CALLS an object of the environment (`x~every(3)()`): what that call
+        # raises is the environment's, not an internal error of the compiler
+        import traceback
+        fr = [f for f in traceback.extract_tb(e.__traceback__) if f.filename.endswith(os.path.join("ptera", "selector.py"))]
+        if fr and fr[-1].name == "eval" and "fn(*args, **kwargs)" in (fr[-1].line or "") \
+                and not isinstance(e, (SyntaxError,)) and type(e).__name__ not in ("SelectorError", "CodeNotFoundError"):
+            return {"err": "EnvCall", "msg": "%s: %s" % (type(e).__name__, e)}
         return selcorr.err(e)
 
 
-REFUSALS = selcorr.ALLOWED | {"ValueError:focus", "Exception:overridable", "TypeError:tooled"}
+ENVCALL = {"EnvCall"}
+REFUSALS = selcorr.ALLOWED | {"ValueError:focus", "Exception:overridable", "TypeError:tooled"} | ENVCALL
 
 
 def classify_probe(s, env, overridable=False):
@@ -129,6 +138,8 @@ def run(chk):
     # call syntax applied to bracketed operands (too long for the exhaustive part)
     strs += ["(f, a)(x)", "(f, a)()", "f > (a, f)(x)", "f((a, f)(x), !a)", "(f)(x)", "f((x, a))", "(a,f) > x",
              "(f, a)(x) > x", "((f, a))(x)", "(f, a)(x, !a)", "(f > a)(x)", "f(x)(a)", "f()()"]
+    # absolute references whose module part cannot be imported at all
+    strs += ["/. > x", "/.. > x", "/.a/f > x", "/ > x", "//f > x", "/a..b/f > x", "/1/2 > x", "/./f(x) > a", "f > /. > x"]
     n_mut = len(strs) - n_enum - n_rand
     chk.cov["rule"] = (
         "every string of <= %d tokens over the %d-token selector alphabet (exhaustive), %d random strings "
@@ -167,7 +178,7 @@ def run(chk):
         r = classify(lambda: select(s, env=env))
         n_sel += 1
         chk.dist("select:" + r.get("err", "ok"))
-        if "err" in r and r["err"] not in selcorr.ALLOWED:
+        if "err" in r and r["err"] not in selcorr.ALLOWED | ENVCALL:
             chk.violation("oracle", "select(%r) raised %s: %s" % (s, r["err"], r.get("msg")),
                           {"call": "select", "string": s, "raised": r})
         elif "ok" in r:
